@@ -144,7 +144,7 @@ func c02Child(ctx *runCtx, spec string) {
 		ctx.rep.Count("restabilisations_accepted_with_differing_backup_owner_lists", atomic.LoadInt64(&cluster.LooseStable))
 	}()
 	rng := rand.New(rand.NewSource(cs.Seed))
-	w := &c02World{c: c, dmap: "c02", log: map[string]*c02Key{}}
+	w := &c02World{c: c, dmap: []string{"c02", "dmap.c02"}[cs.Seed%2], log: map[string]*c02Key{}}
 	for i := 0; i < 60; i++ {
 		k := fmt.Sprintf("key-%d", i)
 		w.keys = append(w.keys, k)
